@@ -35,7 +35,7 @@ OPEN_STATEMENTS = [
     'onsite edge type and spin_pairs_iter: correspondence + Spec oracle only',
     'bose_hubbard / mean_field_dwave / FermiHubbardModel: S_z conservation of FermiHubbardModel is covered by the spec.eq oracle only',
     'su2_relations for all n: oracle only (n <= 3)',
-    'RichardsonGaudin: Model + documented-form oracle only, no theorem; get_antisymmetrized_tensors is not covered',
+    'RichardsonGaudin: richardson_gaudin_documented proves the documented form for every n under ExactRG (exact regime of every + / sum step; not discharged in general, it holds for the dyadic g generated); get_antisymmetrized_tensors is not covered',
     'fourier_transform_unitary_structure / isospectrality: numeric oracle only',
     'dual_basis_jellium_model ignores non_periodic / period_cutoff (the truncated Coulomb factor is only applied in plane_wave_potential): known finding C13-dual-basis-non-periodic',
     'isospectrality of momentum-space and position-space jellium fails on non-orthogonal cells with mixed even / >= 3 grid lengths: known finding C13-jellium-sheared-even',
